@@ -12,7 +12,7 @@ RULE = ("events: write10/12/16 and writesame10/16 (incl. unmap, anchor, ndob) ov
         "transfer lengths {0,1,2} x payloads {A,B} plus one all-flags variant per command and one write per payload container kind (bytes, writable / read-only memoryview window at a non-zero offset of a larger buffer, anonymous mmap fresh / filled through write() with its position at the end), WRITE SAME with block counts 0xFFFF / 0x10000 / 0x10003 / 0xFFFFFFFF, synchronizecache10/16; BFS to depth 2 (quick) / 3 "
         "(thorough) de-duplicating on disk content, per block size in {512, 4096}; each history is replayed from scratch through the facade on a "
         "fresh SG_IO device and a fresh iSCSI device. In every state every read form (read10/12/16, lengths 1..2, one all-flags variant) over every "
-        "touched LBA and its neighbours, READ CAPACITY(10/16) and INQUIRY are compared with the model and across transports. two threads sharing one facade (a refused WRITE(10) and a READ(10)): all schedules with at most 1 preemption at every source line of the library and at most 2 at the lines of the device and facade modules, each thread sees its own command's outcome. Block targets reporting a device type the facade does not list (0Eh, 14h) with the SBC table assigned to the device by the caller before / after / before and after attaching, 9 histories x both block sizes x both transports, read back in full. write / re-point the device path (a link) to another disk / write / read / INQUIRY through init_device and SCSIDevice. states = distinct "
+        "touched LBA and its neighbours, READ CAPACITY(10/16) and INQUIRY are compared with the model and across transports. two threads sharing one facade (a refused WRITE(10) and a READ(10)): all schedules with at most 1 preemption at every source line of the library and at most 2 at the lines of the device and facade modules, each thread sees its own command's outcome. After a re-plug, a second command issued on the same SG_IO device between two source lines of the first (every line, 3 prefixes, read-only / read-write): none reaches the unit that was unplugged. Block targets reporting a device type the facade does not list (0Eh, 14h) with the SBC table assigned to the device by the caller before / after / before and after attaching, 9 histories x both block sizes x both transports, read back in full. write / re-point the device path (a link) to another disk / write / read / INQUIRY through init_device and SCSIDevice. states = distinct "
         "disk contents, transitions = write-type events applied.")
 ASSUMPTIONS = [
     "the target (vf/sim/target.py) decodes CDBs with the oracle's own tables and stores blocks from the data-out buffer it is handed; the reference model is a dict updated from the *arguments* of the facade calls",
@@ -75,7 +75,7 @@ def partitions(tier):
         for i in range(len(evs)):
             parts.append([bs, i])
         parts.append([bs, -1])
-    parts += [["shared", "sgio"], ["shared", "iscsi"], ["relink"], ["preset"]]
+    parts += [["shared", "sgio"], ["shared", "iscsi"], ["relink"], ["preset"], ["replug_reentrant"]]
     return parts
 
 
@@ -422,7 +422,18 @@ def preset_histories():
     return [[], [w10], [w12], [w16], [s10], [s16], [w10, s16], [s10, w16], [w10, w12, w16]]
 
 
+def run_replug_reentrant(rw, pre, only=None, acc=None):
+    """the unit behind the node was replaced; a second command is issued on the same device object between two source lines of the
+    first (another thread scheduled in between, a signal handler), at every line in turn: no command goes to the unit that is no
+    longer there - data would be written to, or read from, the wrong disk (enumeration shared with C15)"""
+    from vf.props import c15
+    v, n = c15.run_reentrant(True, rw, pre, acc, only)
+    return [("replug_reentrant/" + k.split("/", 1)[1], w) for k, w in v], n
+
+
 def run_case(case):
+    if case[0] == "replug_reentrant":
+        return run_replug_reentrant(case[1], case[2], case[3])[0]
     if case[0] == "preset":
         _, pdt, mode, bs, hist = case
         hist = [(e[0], e[1], e[2], e[3], tuple(tuple(f) for f in e[4])) for e in hist]
@@ -445,6 +456,18 @@ def run_partition(part, tier, seed):
     acc = Acc(seed)
     if part[0] == "shared":
         run_shared(part[1], None, acc)
+        return acc
+    if part[0] == "replug_reentrant":
+        for rw in (True, False):
+            for pre in ("r", "xr", "rr"):
+                v, npoints = run_replug_reentrant(rw, pre, None, acc)
+                acc.add("reentrancy_points", npoints)
+                acc.traces += npoints
+                case = ["replug_reentrant", rw, pre, npoints - 1 if v else None]
+                acc.case(case, nontrivial=True, key=repr(case[:3]))
+                for k, w in v:
+                    acc.violation(k, w, case)
+                acc.outcome(("rr", rw, pre, npoints, tuple(k for k, _ in v)))
         return acc
     if part[0] == "preset":
         for pdt in PRESET_TYPES:
